@@ -26,8 +26,13 @@ def life_cycle(rng, sid, small):
         n = rng.randint(2, 8 if small else (15 if m == 4 else 40))
         k = rng.randint(1, n - 1)
         p = P(c, k, n - k, m=m, length=gen.need_len(c, k, m) + rng.choice([0, 2]))
+    if rng.random() < 0.5:
+        # session-specific random contents: with identity payloads two sessions of equal k hold the same symbols
+        # and a symbol leaking from one session into another would go unseen
+        p = P(p.codec, p.k, p.r, m=p.m, N1=p.N1, seed=p.seed, length=rng.choice(list(range(1, 41)) + [64, 100, 255, 1000]),
+              payload="rnd", align=rng.choice([0, 0, 1, 3]))
     if role == "enc":
-        return gen.encode_exec(p, slots=rng.choice(["buf", "null"]), s=sid)
+        return gen.encode_exec(p, slots=rng.choice(["buf", "null"]), s=sid, both=rng.random() < 0.1)
     keep = rng.uniform(0.5, 1.0)
     sub = [e for e in range(p.n) if rng.random() < keep]
     rng.shuffle(sub)
@@ -35,7 +40,7 @@ def life_cycle(rng, sid, small):
     if api == "setavail":
         sub = sorted(sub)
     return gen.decode_exec(p, sub, api=api, finish=rng.choice([True, True, False]), cb=rng.choice([None, "buf", "null", "mix"]),
-                           probe=rng.choice(["each", "end"]), s=sid)
+                           probe=rng.choice(["each", "end"]), s=sid, both=rng.random() < 0.1)
 
 
 def interleave(rng, seqs):
@@ -48,7 +53,32 @@ def interleave(rng, seqs):
         for _ in range(rng.choice([1, 1, 1, 2, 5])):
             if seqs[i]:
                 out.append(seqs[i].pop(0))
+    if rng.random() < 0.4:
+        out = nest(rng, out)
     return out
+
+
+def nest(rng, out):
+    """re-entrant interleaving: a run of other sessions' calls is made from inside a decoded-source-symbol callback
+    of session A (driver command "oncb A N": the next N lines run inside A's next callback; if none fires they run
+    right after A's call).  The order of every session's own calls is unchanged."""
+    has_cb = set()
+    cand = []
+    for i, ln in enumerate(out):
+        parts = ln.split(" ")
+        if parts[0] == "cb":
+            has_cb.add(parts[1])
+        elif parts[0] in ("recv", "finish", "setavail") and parts[1] in has_cb:
+            j = i + 1
+            while j < len(out) and j - i <= 12 and out[j].split(" ")[1] != parts[1] and out[j].split(" ")[0] != "srand":
+                j += 1
+            if j - i - 1 >= 1:
+                cand.append((i, j - i - 1))
+    if not cand:
+        return out
+    # the last calls of a decoder are the ones that decode: prefer late candidates
+    i, n = rng.choice(cand[len(cand) // 2:])
+    return out[:i] + ["oncb %s %d" % (out[i].split(" ")[1], n)] + out[i + 1:i + 1 + n] + [out[i]] + out[i + 1 + n:]
 
 
 def workload(tier, rng):
@@ -103,6 +133,11 @@ def run(pid, tier):
             if "INFRA" not in mm["tags"] and pid not in mm["tags"]:
                 mm["tags"].append(pid)
         apicheck.judge(pid, api, verdict)
+        nested = 0
+        for r in api["results"]:
+            for ln in open(r["trace"]):
+                if ln.startswith('{"e":"Reset"') and '"nested":1' in ln:
+                    nested += 1
         # (2) self-composition: the same sessions alone, each in a fresh process; observations must be equal
         nchunk = vlib.NCPU
         parts = [groups[i::nchunk] for i in range(nchunk)]
@@ -178,6 +213,7 @@ def run(pid, tier):
             "rule": "groups distinct as interleaved behaviour texts; non-trivial = at least two sessions whose calls are interleaved; each "
                     "group is run interleaved (validated by ApiTrace+PchkTrace) and every session alone in a fresh process (IndepTrace "
                     "compares all per-session observations line by line)",
+            "groups_with_calls_nested_in_a_callback": nested,
             "sessions": nsess, "model_states": mc.distinct, "spec_counters": apicheck.stats_summary(api),
             "exhaustive": False,
         }
@@ -190,5 +226,17 @@ def run(pid, tier):
 
 
 def replay(pid, path):
-    import decoders
-    return decoders.replay(pid, path)
+    """an interleaved behaviour: every API-level rejection counts for C12 (as in run)"""
+    bdir = vlib.scratch(pid + "_replay")
+    try:
+        drv = vlib.build_driver(bdir)
+        lines = [l for l in open(path).read().split("\n") if not l.startswith("#")]
+        api = apicheck.run_api(bdir, drv, lines, nproc=1, spec="ApiTrace+PchkTrace")
+        for mm in api["msgs"]:
+            if "INFRA" not in mm["tags"] and pid not in mm["tags"]:
+                mm["tags"].append(pid)
+        verdict = vlib.Verdict(pid)
+        apicheck.judge(pid, api, verdict)
+        return verdict.finish()
+    finally:
+        vlib.cleanup(bdir)
